@@ -23,6 +23,7 @@ require (
 	github.com/jmespath/go-jmespath v0.4.0 // indirect
 	github.com/kelseyhightower/envconfig v1.4.0 // indirect
 	github.com/tyler-smith/go-bip32 v0.0.0-20170922074101-2c9cfd177564 // indirect
+	go.etcd.io/gofail v0.2.0
 	golang.org/x/crypto v0.8.0 // indirect
 )
 
